@@ -115,6 +115,15 @@ class Env:
     def __init__(self, parent=None):
         self.vars = {}
         self.parent = parent
+        self.global_names = set()       # names a `global` statement of this function frame refers to
+
+    def declares_global(self, name):
+        e = self
+        while e is not None:
+            if name in e.global_names:
+                return True
+            e = e.parent
+        return False
 
     def lookup(self, name):
         e = self
@@ -243,6 +252,8 @@ class Exec:
         self.global_objs = {}
         self.global_refs = {}
         self.yield_hook = None
+        self.global_cells = {}
+        self.exc_instances = {}
         self.formatted = []
         self.fstring_literals = []
         self.last_snapshot_kind = 'seq'
@@ -349,9 +360,9 @@ class Exec:
                 self.assume(goal)
             return True
         if self.engine.props_filter is not None and not (props & self.engine.props_filter):
-            # not part of this check: assume (it is discharged by the check of its own property)
-            if not isinstance(goal, bool):
-                self.assume(goal)
+            # not part of this check (it is discharged by the check of its own property).  It is NOT assumed:
+            # on a changed tree it may be false, and assuming it would silently kill this path together with
+            # the obligations of the property under check
             return True
         t0 = time.time()
         if isinstance(goal, bool):
@@ -802,21 +813,36 @@ class Exec:
         self.event('raise', cls, 'explicit@%d' % st.lineno)
         raise PyRaise(cls, 'explicit@%d' % st.lineno)
 
+    def exc_class_id(self, target):
+        name = target.name.split('.')[-1]
+        if name in L.EXC_ID:
+            return L.EXC_ID[name]
+        # an exception class the hierarchy does not know: cannot be shown to be an Exception
+        L.register_exception(name, 'BaseException')
+        return L.EXC_ID[name]
+
     def eval_exception(self, node, env):
         if isinstance(node, ast.Call):
             target = self.eval(node.func, env)
-            for a in node.args:
-                self.eval(a, env)
+            if isinstance(target, St) and target.kind in ('class', 'builtin', 'extclass') and \
+                    not (target.kind == 'class' and self.src.find_method(target.name, '__init__')):
+                for a in node.args:
+                    self.eval(a, env)
+                return self.exc_class_id(target)
+            v = self.eval(node, env)          # a factory call, or a class with its own __init__
         else:
-            target = self.eval(node, env)
-        if isinstance(target, St) and target.kind in ('class', 'builtin', 'extclass'):
-            name = target.name.split('.')[-1]
-            if name in L.EXC_ID:
-                return L.EXC_ID[name]
-            # an exception class the hierarchy does not know: cannot be shown to be an Exception
-            L.register_exception(name, 'BaseException')
-            return L.EXC_ID[name]
-        raise Unsupported('raise of non-class')
+            v = self.eval(node, env)
+        if isinstance(v, St) and v.kind in ('class', 'builtin', 'extclass'):
+            return self.exc_class_id(v)
+        if isinstance(v, z3.ExprRef):
+            known = self.exc_instances.get(L.simp(v).get_id())
+            if known is not None:
+                return known
+            # an exception object of unknown origin (stored earlier, handed in): any class at all
+            cls = self.fresh_int('exc')
+            self.assume(L.exc_is_sub(cls, 'BaseException'))
+            return cls
+        raise Unsupported('raise of %r' % (v,))
 
     def st_Try(self, st, env):
         def run_final():
@@ -912,9 +938,19 @@ class Exec:
     st_ImportFrom = st_Import
 
     def st_Global(self, st, env):
-        # assigning a module global from a function: reported by the frame check, unsupported here
+        # assigning a module global from a function (reported by the static frame scan of C11):
+        # the names refer to a per-path cell of the module global, initially its unknown current value
         self.event('global_decl', tuple(st.names))
-        raise Unsupported('global statement')
+        env.global_names.update(st.names)
+
+    def global_cell(self, module, name):
+        """a module global some function rebinds is state carried between calls: unknown when first read on a path"""
+        key = (module, name)
+        if key not in self.global_cells:
+            v = self.fresh_val('global_%s_%s' % key)
+            self.known(v)
+            self.global_cells[key] = v
+        return self.global_cells[key]
 
     def do_yield(self, v, env):
         hook = getattr(self, 'yield_hook', None)
@@ -926,10 +962,11 @@ class Exec:
     # -- assignment ---------------------------------------------------------------
     def assign(self, target, v, env):
         if isinstance(target, ast.Name):
-            if isinstance(v, (St, BoundMethod, SuperProxy)) and not isinstance(v, Closure):
-                env.vars[target.id] = v
-            else:
-                env.vars[target.id] = v
+            if env.declares_global(target.id):
+                self.event('global_write', self.cur_module, target.id)
+                self.global_cells[(self.cur_module, target.id)] = self.to_val(v)
+                return
+            env.vars[target.id] = v
             return
         if isinstance(target, ast.Attribute):
             obj = self.eval(target.value, env)
@@ -976,6 +1013,9 @@ class Exec:
         raise Unsupported('constant %r' % (v,))
 
     def lookup(self, name, env):
+        if env.declares_global(name) or (not env.has(name)
+                                         and name in self.engine.src.mutable_globals.get(self.cur_module, ())):
+            return self.global_cell(self.cur_module, name)
         if env.has(name):
             return env.lookup(name)
         return self.engine.resolve_global(self, self.cur_module, name)
@@ -992,6 +1032,8 @@ class Exec:
             return self.engine.static_attr(self, obj, attr)
         if isinstance(obj, SuperProxy):
             return BoundMethod(obj, attr)
+        if isinstance(obj, BoundMethod):
+            obj = self.to_val(obj)        # the attribute used as a value (AttributeError if the type has none)
         if isinstance(obj, z3.ExprRef):
             return self.engine.model.getattr(self, obj, attr)
         raise Unsupported('attribute %s of %r' % (attr, obj))
@@ -1102,6 +1144,11 @@ class Exec:
 
     def ex_ListComp(self, node, env):
         return self.engine.loops.list_comp(self, node, env)
+
+    def ex_GeneratorExp(self, node, env):
+        lc = ast.ListComp(elt=node.elt, generators=node.generators)
+        ast.copy_location(lc, node)
+        return self.engine.loops.list_comp(self, lc, env)
 
     def ex_DictComp(self, node, env):
         return self.engine.loops.dict_comp(self, node, env)
